@@ -160,6 +160,10 @@ def step (st : St) (j : Json) : Except String (St × Json × List Fired) := do
   let imembers := (jarr out "members").toOption.getD []
   let imal (i : Nat) : Bool := match imembers.getD (i - 1) Json.null with | .arr #[.bool b, _] => b | _ => false
   let ipub (i : Nat) : String := match imembers.getD (i - 1) Json.null with | .arr #[_, .str s] => s | _ => ""
+  -- a group whose creation period has run out while it was still in a round (any of the three) is EXPIRED by the walk that
+  -- reaches it — it does not stay open for complaints about round data the same walk has just deleted
+  if op == "endBlock" && st'.g.status == .expired && (istatus == 1 || istatus == 2 || istatus == 3) then
+    fired := fired ++ [{ name := "overdue_group_left_in_its_round", detail := mkObj [("status", jn istatus)] }]
   -- a member that follows the protocol is never marked malicious
   for i in List.range g.n do
     if st.honest.getD i false && imal (i + 1) then
